@@ -214,6 +214,19 @@ func (e *e4Env) idleBarrier(goal func() bool) bool {
 	if bc == nil {
 		return false
 	}
+	// the newest transport must itself be an established connection (a transport that was only dialled
+	// so far says nothing: the task goroutine may still be attached to its dead predecessor)
+	bc.stMu.Lock()
+	isActive := false
+	for _, s := range bc.states {
+		if s.State == StateActive {
+			isActive = true
+		}
+	}
+	bc.stMu.Unlock()
+	if !isActive {
+		return false
+	}
 	a0, p0 := atomic.LoadInt64(&e.active), atomic.LoadInt64(e.pushed)
 	if a0 != p0 || a0 == 0 || !goal() {
 		return false
